@@ -235,7 +235,7 @@ pub fn def(tier: Tier) -> PropertyDef {
 	let max_len = tier.pick(500usize, 1500);
 	for name in cfggen::NAMES {
 		// the range claims of these are conditional on averaging kinds that cannot overshoot
-		let nonneg = matches!(name, "RelativeStrengthIndex" | "StochasticOscillator" | "SMIErgodicIndicator" | "Envelopes" | "KeltnerChannel");
+		let nonneg = matches!(name, "RelativeStrengthIndex" | "StochasticOscillator" | "SMIErgodicIndicator" | "Envelopes");
 		let opts = GenOpts { wide: false, price_sources: true, nonneg_ma: nonneg };
 		let strat = cfggen::config_strategy(name, opts)
 			.prop_flat_map(move |cfg| {
